@@ -85,6 +85,10 @@ static int flushData(scpi_t * context) {
 static size_t writeDelimiter(scpi_t * context) {
     if (context->output_count > 0) {
         return writeData(context, ",", 1);
+    } else if (context->separator_pending) {
+        /* first result of a response unit that follows another one */
+        context->separator_pending = FALSE;
+        return writeData(context, ";", 1);
     } else {
         return 0;
     }
@@ -132,10 +136,8 @@ static scpi_bool_t processCommand(scpi_t * context) {
     scpi_bool_t result = TRUE;
     scpi_bool_t is_query = context->param_list.cmd_raw.data[context->param_list.cmd_raw.length - 1] == '?';
 
-    /* conditionally write ; */
-    if(!context->first_output && is_query) {
-        writeData(context, ";", 1);
-    }
+    /* ";" is written together with the first result of this unit, if there is any */
+    context->separator_pending = !context->first_output && is_query;
 
     context->cmd_error = FALSE;
     context->output_count = 0;
@@ -152,13 +154,15 @@ static scpi_bool_t processCommand(scpi_t * context) {
         } else {
             if (context->cmd_error) {
                 result = FALSE;
-            } else {
-                if(context->first_output && is_query) {
-                    context->first_output = FALSE;
-                }
             }
         }
     }
+
+    /* the unit has responded if it produced a result, whatever the callback returned */
+    if (is_query && ((context->output_count > 0) || (context->arbitrary_remaining > 0))) {
+        context->first_output = FALSE;
+    }
+    context->separator_pending = FALSE;
 
     /* set error if command callback did not read all parameters */
     if (state->pos < (state->buffer + state->len) && !context->cmd_error) {
